@@ -419,18 +419,29 @@ class Evaluator:
 
     def _Lambda(self, n):
         a = n.args
-        if a.vararg or a.kwarg or a.kwonlyargs or a.defaults or a.posonlyargs:
-            raise Unfoldable("lambda with non-positional parameters")
+        if a.kwarg or a.kwonlyargs or a.posonlyargs:
+            raise Unfoldable("lambda with keyword-only / positional-only parameters")
         names = [x.arg for x in a.args]
+        defaults = [self.ev(d) for d in a.defaults]   # evaluated once, when the lambda is created
+        vararg = a.vararg.arg if a.vararg else None
         outer = self
 
         def fn(*vals):
-            if len(vals) != len(names):
+            vals = list(vals)
+            if len(vals) < len(names):
+                missing = len(names) - len(vals)
+                if missing > len(defaults):
+                    raise Raised("TypeError")
+                vals += defaults[len(defaults) - missing:]
+            rest = vals[len(names):]
+            if rest and vararg is None:
                 raise Raised("TypeError")
             saved = dict(outer.locals)
             try:
                 for k, v in zip(names, vals):
                     outer.locals[k] = v
+                if vararg is not None:
+                    outer.locals[vararg] = tuple(rest)
                 return outer.ev(n.body)
             finally:
                 outer.locals = saved
@@ -575,6 +586,8 @@ class Evaluator:
                 return self._builtin(getattr(recv, a), args, kwargs)
             if isinstance(recv, (dict, list, tuple, set)) and a in _CONTAINER_METHODS:
                 return self._builtin(getattr(recv, a), args, kwargs)
+            if (isinstance(recv, bytes) and a in ("decode", "strip", "startswith", "endswith")) or (isinstance(recv, str) and a == "encode"):
+                return self._builtin(getattr(recv, a), args, kwargs)
             home = self._home_of(n)
             if home is not None and home.self_obj is not None and recv is home.self_obj and a in home.class_methods:
                 return home.method(a)(recv, *args, **kwargs)      # another method of the object the folded method belongs to
@@ -707,6 +720,8 @@ class Evaluator:
         elif isinstance(st, ast.With):
             for it in st.items:
                 v = self.ev(it.context_expr)
+                if getattr(type(v), "_fold_enter", False):   # a stub whose managed value differs from the manager
+                    v = v.__enter__()
                 if it.optional_vars is not None:
                     self._assign(it.optional_vars, v)
             self._block(st.body)
@@ -751,20 +766,27 @@ class Evaluator:
                 raise Raised("AssertionError")
         elif isinstance(st, ast.Try):
             try:
-                self._block(st.body)
-            except Raised as r:
-                for h in st.handlers:
-                    if self._handler_matches(h, r.kind):
-                        self._block(h.body)
-                        break
+                try:
+                    self._block(st.body)
+                except Raised as r:
+                    for h in st.handlers:
+                        if self._handler_matches(h, r.kind):
+                            self._block(h.body)
+                            break
+                    else:
+                        raise
                 else:
-                    raise
+                    self._block(st.orelse)
+            except Unfoldable:
+                raise
+            except BaseException:
+                # `finally` runs on every way out of the statement: exception passing through, return, break, continue
+                if st.finalbody:
+                    self._block(st.finalbody)
+                raise
             else:
-                self._block(st.orelse)
-            finally:
-                pass
-            if st.finalbody:
-                self._block(st.finalbody)
+                if st.finalbody:
+                    self._block(st.finalbody)
         else:
             raise Unfoldable(f"statement {type(st).__name__}")
 
